@@ -16,7 +16,9 @@ RULE = (
     'None, 0, -1, 0.125, 5, 300} x clock steps, backend parameters TIMEOUT in {300,None,0,5} x KEY_PREFIX in {"",p} x VERSION '
     'in {1,2} x SHARDS in {1,3}; three-way comparison: a written model of the contract, Django\'s reference LocMemCache on the '
     'same virtual clock, and DjangoCache. Model != LocMemCache is a harness error; DjangoCache != model is the violation. '
-    'non-trivial = >= 2 versions or >= 2 timeout classes used on one key with a clock step between; distinct by SHA-1'
+    'Concurrent part: 2-3 clients (own or one shared DjangoCache object, 1-2 shards) run set/add/get/incr/decr/delete/has_key/touch under '
+    'generated schedules, refused calls (ValueError, False) among them; oracle = linearizability against a dictionary, no database error '
+    'may surface. non-trivial = >= 2 versions or >= 2 timeout classes used on one key with a clock step between; distinct by SHA-1'
 )
 ASSUMPTIONS = [
     'where the contract is silent and Django\'s own backends disagree the model says "either": the return value of set() and '
